@@ -58,12 +58,14 @@ def src_once(check, proj):
             A.fold_enabled = False
             dom = GvnDomain(A)
             it = Interp(proj, dom)
+            it.allow_try = True
             xc = A.sym("xc")
             qd = [A.sym("q%d" % i) for i in range(3)]
             R = [A.sym("R%d" % i) for i in range(3)]
             srcs = [OpaqueFn("S%d" % i) if on else None for i, on in enumerate(pattern)]
             so = SelfObj(c, {"neq": 3, "model": ObjStub("model", {"source": srcs}), "mesh": ObjStub("mesh", {"centers": lambda: xc}),
-                             "qdata": list(qd), "pdata": [A.sym("prim%d" % i) for i in range(3)], "residual": list(R)})
+                             "qdata": list(qd), "pdata": [A.sym("prim%d" % i) for i in range(3)], "residual": list(R),
+                             "field": ObjStub("field", {"time": A.sym("t_field"), "it": A.sym("it_field")}), "time": A.sym("t_disc")})
             it.call_function(f, [so])
             inplace += it.ev.inplace_owned
             res = so.attrs["residual"]
@@ -77,6 +79,10 @@ def src_once(check, proj):
                     why = "equation %d becomes %s, expected %s" % (i, A.show(got, 120) if isinstance(got, RF) else got, A.show(want, 120))
             if so.attrs["qdata"] != qd and not all(a is b for a, b in zip(so.attrs["qdata"], qd)):
                 ok, why = False, "conservative data are modified"
+            if not ok and it.ev.try_paths:
+                why += " [on the path where the `try` at line %d raises nothing: a source function that ACCEPTS the probing call -- an optional third parameter, *args -- is evaluated with it]" % it.ev.try_paths[0][1]
+            if ok and it.ev.try_paths:
+                raise AnalysisError("%s:%d the handlers of the try statement (%s) are not analysed" % (it.ev.try_paths[0][0], it.ev.try_paths[0][1], ", ".join(it.ev.try_paths[0][2])))
             check.record("SRC-ONCE", "%s [sources %s]" % (f.qualname, ["S" if x else "None" for x in pattern]), ok,
                          "residual[i] += source[i](centres, conservative data) for each given entry, None skipped, nothing else" if ok else why, f.loc(), key="add-" + "".join("1" if x else "0" for x in pattern))
         # (in-place updates of an array returned by a source function are collected by the
